@@ -19,11 +19,12 @@ N2 = [Opt('int', b'a', 0, 11), Opt('str', b's', 0, b'sub-default'), Opt('intl', 
       Opt('sec', b'n', F['MULTI'] | F['TITLE'], None, N3), Opt('flt', b'f', 0, 2.5), Opt('bool', b'b', 0, 1)]
 SCHEMA = [Opt('int', b'i', 0, 7), Opt('str', b's', 0, b'top-default'), Opt('strl', b'sl', 0, b'{x, "y z"}'),
           Opt('sec', b'm', F['MULTI'], None, N2), Opt('sec', b't', F['MULTI'] | F['TITLE'], None, N2),
-          Opt('sec', b'one', 0, None, N2), Opt('sec', b'kv', F['KEYSTRVAL'], None, []), Opt('booll', b'bl', 0, b'{true}')]
+          Opt('sec', b'one', 0, None, N2), Opt('sec', b'kv', F['KEYSTRVAL'], None, []), Opt('booll', b'bl', 0, b'{true}'),
+          Opt('sec', b'kd', F['KEYSTRVAL'] | F['MULTI'], None, [Opt('int', b'level', 0, 3), Opt('strl', b'tags', 0, b'{t1, "t 2"}')])]
 
 WORK = ['dump C', 'print C 0',
         'parse_buf C ' + hx(b'm { a = 1 n x { } }\nm { n y { z = "set" } n z { zl += {more} } }\nt first { n q { } }\n'),
-        'dump C', 'parse_buf C ' + hx(b'm { n third { } }\nkv { k = v }\none { n w { } }\nsl += {more}\n'), 'dump C', 'print C 0',
+        'dump C', 'parse_buf C ' + hx(b'm { n third { } }\nkv { k = v }\none { n w { } }\nsl += {more}\nkd { level = 5 free = x }\nkd { other = y }\n'), 'dump C', 'print C 0',
         'setstr C %s %s 0' % (hx(b's'), hx(b'changed')), 'addtsec C %s %s' % (hx(b't'), hx(b'api')), 'setint C %s 9 0' % hx(b't=api|a'),
         'addlist C %s int 7' % hx(b't=api|l'), 'setcomment C %s %s' % (hx(b'i'), hx(b'note')), 'getopt C ' + hx(b'm=2|n=third|z'),
         'rmsec C ' + hx(b'm=0'), 'parse_buf C ' + hx(b'm { n again { zl = {} } }\n'), 'dump C', 'print C 2']
@@ -101,7 +102,35 @@ def oracle(scn, il):
         tr = il[-1] if il else 'no result'
         m = re.search(r'san=(\S+)', tr)
         return [('sanitizer:' + (m.group(1) if m else 'crash'), '%s: %s' % (scn.id, tr))]
-    return []
+    # every section instance, whenever created, has the declared sub-options (name, kind, default) of its template
+    out = []
+    for l in reversed(il[:-1]):
+        if l.startswith('dump ('):
+            try:
+                missing = check_instances(gen.dump_tree(l), SCHEMA, b'root')
+            except (ValueError, IndexError, StopIteration) as e:
+                missing = ['unreadable dump: %s' % e]
+            if missing:
+                out.append(('instance-lacks-declared-options', '%s: %s' % (scn.id, '; '.join(missing[:4]))))
+            break
+    return out
+
+
+def check_instances(c, schema, where):
+    bad = []
+    names = [o.name for o in c.opts]
+    for so in schema:
+        if so.name not in names:
+            bad.append('%s has no option %r' % (where.decode('latin-1'), so.name))
+            continue
+        o = c.opts[names.index(so.name)]
+        want = {'strl': 'str', 'intl': 'int', 'booll': 'bool', 'fltl': 'float', 'flt': 'float'}.get(so.kind, so.kind)
+        if o.kind != want:
+            bad.append('%s|%s has kind %s, declared %s' % (where.decode('latin-1'), so.name.decode(), o.kind, so.kind))
+        if so.kind == 'sec':
+            for k, sub in enumerate(o.vals):
+                bad += check_instances(sub, so.sub, where + b'|' + so.name + b'=%d' % k)
+    return bad
 
 
 def cross_oracle(scns, impl):
